@@ -3,7 +3,8 @@
 From Coq Require Import ZArith NArith Bool List.
 From ZV.Index Require Import Window Overflow.
 From ZV.Det Require Import ResetModel ResetProofs CwkspClean CwkspProofs RowSalt RowSaltProofs OptStats OptStatsProofs
-                           MtPartition MtProofs.
+                           MtPartition MtProofs FrameRel FrameRelProofs CwkspRefine StreamPartition StreamPartitionProofs
+                           BlockState BlockStateProofs DictMode DictModeProofs.
 Import ListNotations.
 Local Open Scope Z_scope.
 
@@ -81,3 +82,107 @@ Theorem mt_output_schedule_independent : forall (cj : job -> list Z) (jobs1 jobs
   fout (frun (map cj jobs1) evs1) = fout (frun (map cj jobs2) evs2).
 Proof. exact MtProofs.mt_output_schedule_independent. Qed.
 Print Assumptions mt_output_schedule_independent.
+
+(* ---------- continuation round ---------- *)
+
+(* a used context and a brand-new one stay observationally equal during the WHOLE frame that follows the reset *)
+Theorem frame_after_reset_history_independent : forall ops p mem0 fops,
+  run_wf m_fresh ops -> reset_fits (run m_fresh ops) p -> (r_buflow p <= length mem0)%nat ->
+  frame_wf (r_ntab p) (r_buflow p) 0 fops ->
+  observe (run_frame (reset (run m_fresh ops) p) fops) =
+  observe (run_frame (reset m_fresh (fresh_params p mem0)) fops).
+Proof. exact FrameRelProofs.frame_after_reset_history_independent. Qed.
+Print Assumptions frame_after_reset_history_independent.
+
+Theorem frame_after_reset_two_histories : forall ops1 ops2 p1 p2 fops,
+  run_wf m_fresh ops1 -> run_wf m_fresh ops2 ->
+  reset_fits (run m_fresh ops1) p1 -> reset_fits (run m_fresh ops2) p2 ->
+  r_ntab p1 = r_ntab p2 -> r_buflow p1 = r_buflow p2 ->
+  frame_wf (r_ntab p1) (r_buflow p1) 0 fops ->
+  observe (run_frame (reset (run m_fresh ops1) p1) fops) = observe (run_frame (reset (run m_fresh ops2) p2) fops).
+Proof. exact FrameRelProofs.frame_after_reset_two_histories. Qed.
+Print Assumptions frame_after_reset_two_histories.
+
+(* the byte-level workspace model computes the watermark formula the cell-level reset model assumes *)
+Theorem cwksp_reset_watermark_formula : forall ops0 ir t1 t2 t3 tops,
+  forallb is_top tops = true ->
+  let w := wrun ws_null ops0 in
+  let w1 := wrun w (table_seq ir t1 t2 t3) in
+  let w2 := wrun w1 tops in
+  (ir = false -> 1 <= phase w) -> 1 <= phase w1 ->
+  tableEnd w2 = tableEnd w1 /\ objectEnd w2 = objectEnd w1 /\
+  tableValidEnd w2 = Z.min (Z.max (if ir then objectEnd w1 else tableValidEnd w) (tableEnd w1)) (allocStart w2).
+Proof. exact reset_watermark_formula. Qed.
+Print Assumptions cwksp_reset_watermark_formula.
+
+(* buffered streaming: the chunks handed to the block compressor are a function of the input pieces only *)
+Theorem stream_partition_is_spec : forall B IS ps envs s',
+  0 < B -> pieces_ok ps -> no_shortcut envs ->
+  s_run B IS B (s_init B []) ps envs = Some s' ->
+  (s_chunks s', s_filled s') = sp_run B ps.
+Proof. exact StreamPartitionProofs.stream_partition_is_spec. Qed.
+Print Assumptions stream_partition_is_spec.
+
+Theorem stream_partition_capacity_independent : forall B IS1 IS2 ps envs1 envs2 s1 s2,
+  0 < B -> pieces_ok ps -> no_shortcut envs1 -> no_shortcut envs2 ->
+  s_run B IS1 B (s_init B []) ps envs1 = Some s1 -> s_run B IS2 B (s_init B []) ps envs2 = Some s2 ->
+  s_chunks s1 = s_chunks s2 /\ s_filled s1 = s_filled s2.
+Proof. exact StreamPartitionProofs.stream_partition_capacity_independent. Qed.
+Print Assumptions stream_partition_capacity_independent.
+
+Theorem stream_continue_pieces_merge : forall B cl b n1 n2, 0 < B -> 0 <= b -> 0 <= n1 -> 0 <= n2 ->
+  sp_piece B (sp_piece B (cl, b) (n1, s_continue)) (n2, s_continue) = sp_piece B (cl, b) (n1 + n2, s_continue).
+Proof. exact continue_pieces_merge. Qed.
+Print Assumptions stream_continue_pieces_merge.
+
+Theorem stream_continue_flush_merge : forall B cl b n1 n2, 0 < B -> 0 <= b -> 0 <= n1 -> 0 <= n2 ->
+  sp_piece B (sp_piece B (cl, b) (n1, s_continue)) (n2, s_flush) = sp_piece B (cl, b) (n1 + n2, s_flush).
+Proof. exact continue_flush_merge. Qed.
+Print Assumptions stream_continue_flush_merge.
+
+Theorem stream_continue_end_merge : forall B cl b n1 n2, 0 < B -> 0 <= b < B -> 0 <= n1 -> 0 <= n2 ->
+  (0 < n2 \/ (b + n1) mod B <> 0 \/ b + n1 = 0) ->
+  sp_piece B (sp_piece B (cl, b) (n1, s_continue)) (n2, s_end) = sp_piece B (cl, b) (n1 + n2, s_end).
+Proof. exact continue_end_merge. Qed.
+Print Assumptions stream_continue_end_merge.
+
+(* the parts of the context a reset overwrites with constants *)
+Theorem block_state_reset_forgets : forall s1 s2, reset_cbstate s1 = reset_cbstate s2.
+Proof. exact BlockStateProofs.block_state_reset_forgets. Qed.
+Print Assumptions block_state_reset_forgets.
+
+Theorem ldm_reset_forgets : forall s1 s2 tb nb, reset_ldm s1 tb nb = reset_ldm s2 tb nb.
+Proof. exact BlockStateProofs.ldm_reset_forgets. Qed.
+Print Assumptions ldm_reset_forgets.
+
+(* MT: two arbitrary schedules / worker counts: same job sizes, same overlaps (once everything buffered is posted) *)
+Theorem mt_two_schedules : forall t ops envs1 envs2 s1 s2,
+  0 < t -> Forall (fun o => 0 <= fst o) ops ->
+  run_ops t mt_init ops envs1 = Some s1 -> run_ops t mt_init ops envs2 = Some s2 ->
+  MtPartition.filled s1 = 0 -> MtPartition.filled s2 = 0 ->
+  nonempty_sizes (jobs s1) = nonempty_sizes (jobs s2).
+Proof. exact MtProofs.mt_two_schedules. Qed.
+Print Assumptions mt_two_schedules.
+
+Theorem mt_prefixes_two_schedules : forall t p0 ptarget ops envs1 envs2 s1 s2,
+  0 < t -> Forall (fun o => 0 <= fst o) ops ->
+  run_ops t mt_init ops envs1 = Some s1 -> run_ops t mt_init ops envs2 = Some s2 ->
+  MtPartition.filled s1 = 0 -> MtPartition.filled s2 = 0 ->
+  job_prefixes p0 ptarget (nonempty_sizes (jobs s1)) = job_prefixes p0 ptarget (nonempty_sizes (jobs s2)).
+Proof. exact MtProofs.mt_prefixes_two_schedules. Qed.
+Print Assumptions mt_prefixes_two_schedules.
+
+(* what a frame does with a digested dictionary is decided by the CDict, this frame's parameters and pledged size *)
+Theorem dict_force_load_never_uses_tables : forall cd pledged fw, dict_mode cd pledged dictForceLoad fw = DLoad.
+Proof. exact force_load_never_uses_tables. Qed.
+Print Assumptions dict_force_load_never_uses_tables.
+
+Theorem dict_force_copy_never_attaches : forall cd pledged fw, cd_dds cd = false -> dict_mode cd pledged dictForceCopy fw <> DAttach.
+Proof. exact force_copy_never_attaches. Qed.
+Print Assumptions dict_force_copy_never_attaches.
+
+Theorem dict_attach_is_downward_closed : forall cd p1 p2 pref fw,
+  0 <= p1 <= p2 -> p2 < CONTENTSIZE_UNKNOWN ->
+  dict_mode cd p2 pref fw = DAttach -> dict_mode cd p1 pref fw = DAttach.
+Proof. exact attach_is_downward_closed. Qed.
+Print Assumptions dict_attach_is_downward_closed.
